@@ -730,6 +730,11 @@ def run_words(words, histories=True, mirror=True, ms_variants=((2, 2),), suffix_
                     try:
                         c1 = copy.deepcopy(cfg)
                         l1, r1, log1 = do_run(m, L, R, c1)
+                        import json as _json
+                        try:
+                            saved_json = _json.dumps(c1)        # what the command line writes after the run: the configuration as the run left it
+                        except Exception:     # noqa
+                            saved_json = None
                     except Exception as e:     # noqa
                         ob(False, 'accepted-pipeline-runs-without-error', word, repr(e))
                         continue
@@ -768,6 +773,25 @@ def run_words(words, histories=True, mirror=True, ms_variants=((2, 2),), suffix_
                             ob(same_log and v == 'unsat', 'second-run-same-machine-identical', word, 'log same=%s, terms %s' % (same_log, v))
                         except Exception as e:     # noqa
                             ob(False, 'second-run-same-machine-identical', word, repr(e))
+                    # C19: the configuration saved after the run (through JSON, as cfg/config.json) replays on a fresh machine: accepted, same
+                    # steps, same band names (the indicator each confidence step is built with), same product terms
+                    if histories and isinstance(l1, Disp) and saved_json is not None:
+                        try:
+                            saved = _json.loads(saved_json)
+                            m5 = PandoraMachine()
+                            m5.check_conf(copy.deepcopy(saved), L, R)
+                            l5, r5, log5 = do_run(m5, L, R, saved)
+                            ind = lambda lg: [(e["sid"], e["side"], e.get("indicator")) for e in lg if e["step"] == "cost_volume_confidence"]
+                            same_log = _actual_log(log5, nsc) == act and ind(log5) == ind(log1)
+                            pairs = list(zip(l1.terms(), l5.terms()))
+                            if has_val and isinstance(r1, Disp) and isinstance(r5, Disp):
+                                pairs += list(zip(r1.terms(), r5.terms()))
+                            res['queries'] += 1
+                            v = valid_eq(pairs)
+                            ob(same_log and v == 'unsat' and isinstance(r1, Disp) == isinstance(r5, Disp), 'saved-configuration-replays-to-the-same-products', word,
+                               lambda: 'log same=%s, terms %s; confidence indicators first run %s, replay %s' % (same_log, v, ind(log1)[:4], ind(log5)[:4]))
+                        except Exception as e:     # noqa
+                            ob(False, 'saved-configuration-replays-to-the-same-products', word, 'replay of the saved configuration raised %r' % (e,))
                     if isinstance(l1, Disp):
                         _interval_obligations(res, ob, word, cfg, log1, l1, ms, a_, b_, has_val)
                     # mirrored problem (C08): exchange images, negate and swap the interval
